@@ -62,6 +62,15 @@ type satResult struct {
 // satisfy req (with parameters substituted).
 func (p *Prog) satisfied(s *Sym, facts []Atom, req CallReq, depth int, res *satResult) bool {
 	for _, a := range facts {
+		// a boolean handed back by a module helper next to its error
+		// (`_, valid, err := check(...)`, with `valid` known here): on the helper's
+		// non-failing returns that result is one value of the helper, and the
+		// fact holds of that value there
+		if ch, fv, ok := p.forwardedBool(s, a); ok && depth < 6 {
+			if p.satisfied(ch, []Atom{{Kind: Truth, V: fv, Pol: a.Pol}}, req, depth+1, res) {
+				return true
+			}
+		}
 		c, ok, succ := callOfAtom(a)
 		if !ok || !succ {
 			continue
@@ -487,4 +496,53 @@ func (p *Prog) onlyVia(g *ssa.Function, via map[*ssa.Function]bool) bool {
 		return true
 	}
 	return up(g, 0)
+}
+
+// forwardedBool: atom a states the truth of result k (not the verdict) of a
+// call to a module helper; on every return of the helper that can
+// produce this truth value, result k is one and the same SSA value fv of the
+// helper. Returns the helper's evaluator (parameters bound) and fv.
+func (p *Prog) forwardedBool(s *Sym, a Atom) (*Sym, ssa.Value, bool) {
+	ex, isEx := a.V.(*ssa.Extract)
+	if !isEx || a.Kind != Truth {
+		return nil, nil, false
+	}
+	c, isC := ex.Tuple.(*ssa.Call)
+	if !isC {
+		return nil, nil, false
+	}
+	f := c.Call.StaticCallee()
+	if f == nil || !InModule(f) || f.Blocks == nil || ex.Index == verdictIndex(f) {
+		return nil, nil, false
+	}
+	for _, g := range s.stack {
+		if g == f {
+			return nil, nil, false
+		}
+	}
+	ch := s.child(f)
+	s.bindArgs(ch, f, c.Call.Args, c)
+	var fv ssa.Value
+	for _, rp := range ch.ff.RetPoints(verdictIndex(f)) {
+		// every return counts, failing ones too: the caller knows the boolean,
+		// not necessarily the error
+		if ex.Index >= len(rp.Vals) {
+			return nil, nil, false
+		}
+		v := rp.Vals[ex.Index]
+		if k, isK := v.(*ssa.Const); isK {
+			if k.Value != nil && (k.Value.String() == "true") != a.Pol {
+				continue // this return cannot be the one taken
+			}
+			return nil, nil, false // a constant of the same truth: nothing is known there
+		}
+		if fv != nil && fv != v {
+			return nil, nil, false
+		}
+		fv = v
+	}
+	if fv == nil {
+		return nil, nil, false
+	}
+	return ch, fv, true
 }
